@@ -117,12 +117,18 @@ func check(c Case) error {
 		defer func() { _ = recover() }()
 		o := c
 		o.ByName = false
-		if c.Enzyme.Name == "custom" {
-			o.Enzyme.Skip, o.Enzyme.OverhangLen = c.Enzyme.Skip+1, 1+c.Enzyme.OverhangLen%6
-		} else {
+		if c.Enzyme.Name != "custom" {
 			o.Enzyme = refclone.BuiltIn[map[string]string{"BsaI": "BbsI", "BbsI": "BtgZI", "BtgZI": "BsaI"}[c.Enzyme.Name]]
+			_, _ = cut(o, applyCase(c.Seq, c.CaseMask))
 		}
-		_, _ = cut(o, applyCase(c.Seq, c.CaseMask))
+		// the same site with a shorter and with a longer reach
+		for _, g := range [][2]int{{0, 1 + c.Enzyme.OverhangLen%6}, {c.Enzyme.Skip / 2, c.Enzyme.OverhangLen}, {c.Enzyme.Skip + 3, 1 + (c.Enzyme.OverhangLen+2)%6}} {
+			o.Enzyme = refclone.Enzyme{Name: "custom", Site: c.Enzyme.Site, Skip: g[0], OverhangLen: g[1]}
+			func() {
+				defer func() { _ = recover() }()
+				_, _ = cut(o, applyCase(c.Seq, c.CaseMask))
+			}()
+		}
 	}()
 	for _, r := range rotations(c) {
 		if c.Circular && exclude && refclone.InDoublingLossZone(want, L.N, c.Enzyme, len(c.Enzyme.Site), r) {
@@ -408,11 +414,11 @@ var subEnds = vk.Register(&vk.Sub[Case]{Name: "ends", Check: check, NonTrivial: 
 func TestSub_ends(t *testing.T) {
 	enzymes := []refclone.Enzyme{refclone.BuiltIn["BsaI"], refclone.BuiltIn["BbsI"], refclone.BuiltIn["BtgZI"]}
 	for _, site := range []string{"CACC", "GAAGC"} {
-		for _, g := range [][2]int{{0, 6}, {0, 5}, {0, 1}, {1, 6}, {1, 4}, {2, 3}, {3, 6}, {5, 2}} {
+		for _, g := range [][2]int{{0, 6}, {0, 5}, {0, 1}, {1, 6}, {1, 4}, {2, 3}, {3, 6}, {5, 2}, {12, 4}, {14, 2}} {
 			enzymes = append(enzymes, refclone.Enzyme{Name: "custom", Site: site, Skip: g[0], OverhangLen: g[1]})
 		}
 	}
-	space := "3 built-in and 16 custom geometries (sites of 4 and 5 letters, skip 0..5, overhang 1..6) x two sites in each of the 4 orientation pairs x every leading, middle and trailing gap of 0..skip+overhang+2 letters (capped at 9 for the leading and trailing gap), linear; every 5th layout also circular at every rotation"
+	space := "3 built-in and 20 custom geometries (sites of 4 and 5 letters, skip 0..5, 12 and 14, overhang 1..6) x two sites in each of the 4 orientation pairs x every leading, middle and trailing gap of 0..skip+overhang+2 letters (capped at 9 for the leading and trailing gap), linear; every 5th layout also circular at every rotation"
 	vk.RunEnum(t, subEnds, space, true, func(yield func(Case) bool) {
 		k := 0
 		for _, e := range enzymes {
